@@ -389,6 +389,10 @@ func (v *vstore) rng() {
 		if want, has := v.shadow[e.k]; !has || want != e.v {
 			v.tr.viol(fmt.Sprintf("C01: Range yielded %d=%d, latest write %d (present %v)", e.k, e.v, want, has))
 		}
+		if d := v.shadowExp[e.k]; d != 0 && d <= v.now {
+			v.tr.viol(fmt.Sprintf("C03: Range yielded key %d at %d past its deadline %d", e.k, v.now, d))
+			v.tr.viol(fmt.Sprintf("C16: Range yielded key %d at %d past its deadline %d, although Get reports it absent", e.k, v.now, d))
+		}
 	}
 	v.tr.op("range", ss("5", i64(v.now)), out)
 	// stop when told to
